@@ -181,6 +181,9 @@ def run_session(ssh, max_obj, unnamed):
             O = T(osh)
             asgs = list(spaces.assignments(O, S))
             steps_for(osh, [asgs])                       # the sweep: one dict updated in place through all assignments
+            # other LowestCommonAncestor structures come to life on clades of the same species tree (a caller analysing a
+            # sub-clade); the session's own structure must not be disturbed by them
+            clade_structs = [LowestCommonAncestor(snode[v]) for v in S.internal if v != S.root]
             if len(asgs) <= 27:
                 steps_for(osh, [[a, b] for a in asgs for b in asgs])   # every depth-2 history from a fresh dict
     return n_eval, nt, viols
